@@ -12,7 +12,7 @@ pub const META_C13: Meta = Meta {
     assumptions: &["device answers are a pure function of (call index, signal), so the prefix before a fault is comparable item by item", "deviations at forwarded mid-clock calls are invisible by construction of the default write_input and are not enumerated"],
     quick_cases: 12000,
     thorough_cases: 200000,
-    floor: 150,
+    floor: 500,
 };
 
 fn items_equal_prefix(a: &[RealStep], b: &[RealStep], k: usize) -> Option<usize> {
